@@ -26,9 +26,12 @@ def draw_model(r):
       return {'kind': 'corpus', 'name': r.choice(modelgen.MULTI_CORPUS)}
     return {'kind': 'gen2', 'seed': r.randrange(1 << 30), 'max_ops': r.randint(1, 4)}
   if r.random() < 0.65:
-    return {'kind': 'gen', 'seed': r.randrange(1 << 30), 'max_ops': r.randint(1, 7),
-            'bias': {'reshape': 1.6, 'transpose': 1.4, 'slice': 1.4, 'split': 1.4, 'pool': 1.6,
-                     'concat': 1.5, 'softmax': 1.6, 'logistic': 1.6, 'tanh': 1.6}}
+    d = {'kind': 'gen', 'seed': r.randrange(1 << 30), 'max_ops': r.randint(1, 7)}
+    if r.random() < 0.06:
+      d['empty_buffer'] = r.choice(['tensor', 'orphan'])
+    d['bias'] = {'reshape': 1.6, 'transpose': 1.4, 'slice': 1.4, 'split': 1.4, 'pool': 1.6,
+                 'concat': 1.5, 'softmax': 1.6, 'logistic': 1.6, 'tanh': 1.6}
+    return d
   return {'kind': 'corpus', 'name': r.choice(modelgen.CORPUS)}
 
 
@@ -186,7 +189,8 @@ def generate(rseed, tier='quick'):
     elif k == 'validate':
       ds = [i for i, d in enumerate(datasets) if d['model'] == mi]
       ops.append({'op': 'validate', 'q': q, 'data': r.choice(ds + [None]),
-                  'metric': r.choice(['mse', 'median_diff_ratio']), 'none_key': r.random() < 0.3})
+                  'metric': r.choice(['mse', 'median_diff_ratio']), 'none_key': r.random() < 0.3,
+                  'reference_kernel': r.random() < 0.25})
     else:
       ops.append({'op': 'export', 'q': q})
   return {'v': 1, 'property': PROP, 'run_seed': rseed, 'knobs': knobs,
@@ -512,7 +516,11 @@ def execute(doc):
       if Q['result'] is None:
         rec.fault('validate_before_quantize')
       try:
-        Q['obj'].validate(td, op.get('metric', 'mse'))
+        if op.get('reference_kernel'):
+          Q['obj'].validate(td, op.get('metric', 'mse'), use_reference_kernel=True)
+          rec.probe('validate_reference_kernel')
+        else:
+          Q['obj'].validate(td, op.get('metric', 'mse'))
         rec.event(step, 'validate', 'ok')
       except Exception as e:  # pylint: disable=broad-except
         rec.event(step, 'validate', 'raised:' + harness.exc_class(e))
